@@ -67,4 +67,37 @@ theorem search_eq_globTids (pf : Bytes → Option Int) (maxKey : Int) (terms : L
     simp only [Option.some.injEq] at hb
     rw [hb, Bool.eq_iff_iff, hbg, globB_iff]
 
+theorem filter_map_positions (P : Bytes → Bool) (entries : List (Nat × Bytes)) (b : Nat) :
+    ((List.range' b entries.length).filter fun tid => P ((entries.map (·.2)).getD (tid - b) [])).map
+      (fun p => (entries.getD (p - b) (0, [])).1) = (entries.filter fun e => P e.2).map (·.1) := by
+  induction entries generalizing b with
+  | nil => simp
+  | cons e es ih =>
+    have htail : ((List.range' (b + 1) es.length).filter fun tid => P (((e :: es).map (·.2)).getD (tid - b) [])).map
+        (fun p => ((e :: es).getD (p - b) (0, [])).1) = (es.filter fun e => P e.2).map (·.1) := by
+      rw [← ih (b + 1)]
+      have hc : ∀ t, t ∈ List.range' (b + 1) es.length → t - b = (t - (b + 1)) + 1 := by
+        intro t ht; rw [List.mem_range'_1] at ht; omega
+      rw [List.filter_congr (q := fun tid => P ((es.map (·.2)).getD (tid - (b + 1)) []))]
+      · apply List.map_congr_left
+        intro t ht
+        have ht' := (List.mem_filter.mp ht).1
+        rw [hc t ht']; simp
+      · intro t ht
+        rw [hc t ht]; simp
+    simp only [List.map_cons] at htail
+    simp only [List.length_cons, List.range'_succ, List.filter_cons]
+    by_cases hp : P e.2 = true
+    · simp only [Nat.sub_self, List.map_cons, List.getD_cons_zero, hp, if_true]
+      rw [htail]
+    · simp only [Nat.sub_self, List.map_cons, List.getD_cons_zero, hp, if_false, Bool.false_eq_true]
+      rw [htail]
+
+theorem activeFind_eq_glob (pf : Bytes → Option Int) (maxKey : Int) (terms : List Term) (hwf : WF terms)
+    (entries : List (Nat × Bytes)) :
+    activeFind pf maxKey (.literal terms) entries = some ((entries.filter fun e => globB terms e.2).map (·.1)) := by
+  simp only [activeFind, search_eq_globTids pf maxKey terms hwf, Option.map_some, Option.some.injEq, globTids,
+    List.length_map]
+  exact filter_map_positions (globB terms) entries 1
+
 end SV.Pattern
